@@ -36,6 +36,9 @@ def scenarios(tier):
     S.append(("buffer-boundary", base + [f"C 1 set k1 {L249}", "C 1 set k2 x"], False))
     S.append(("big-value-update", base + [f"C 1 set a {L600}"], False))
     S.append(("increment-persisted", base + ["C 1 increment a", "C 1 increment n"], False))
+    # a key that was Updated when a reclaiming snapshot moved every record (a tombstone dropped before it) is updated again:
+    # the in-place write must go to the record's NEW position
+    S.append(("in-place-after-reclaim-moved-the-record", base + ["C 1 remove a", "C 1 snapshot false", "SNAP", "C 1 set c c2", "C 1 snapshot true", "SNAP", "C 1 set c c3", "C 1 set bb b3"], False))
     if tier != "quick":
         S.append(("many-new-keys", base + [f"C 1 set n{i} value-{i}" for i in range(12)], False))
         S.append(("many-updates", base + ["C 1 set a u1", "C 1 set bb u2", "C 1 set c u3", "C 1 remove a"], False))
